@@ -919,7 +919,15 @@ static ares_status_t process_answer(ares_channel_t      *channel,
   }
 
   server_set_good(server, query->using_tcp);
+  if (is_cached) {
+    /* The record now belongs to the cache; the callback must not lose it if
+     * it calls back into the library and entries get expired or flushed */
+    ares_qcache_lend(channel->qcache);
+  }
   end_query(channel, server, query, ARES_SUCCESS, rdnsrec);
+  if (is_cached) {
+    ares_qcache_unlend(channel->qcache);
+  }
 
   status = ARES_SUCCESS;
 
